@@ -16,6 +16,22 @@ Print Assumptions C14_lshift_expand.
 Theorem C14_lshift_zero_keeps_format : forall f c, 1 <= nw f -> in_range f c -> lshift_fmt ShExpand f [c] 0 = f.
 Proof. exact lshift_zero_keeps_format. Qed.
 Print Assumptions C14_lshift_zero_keeps_format.
+(* arrays of any length: one common word, every element shifted exactly, no flag; the common word is the least one (unless the
+   array is all zeros, where the count is still added although no bit is needed) *)
+Theorem C14_lshift_expand_arrays : forall f codes n, 0 <= n -> 1 <= nw f -> Forall (in_range f) codes ->
+  exists w, fxp_lshift_arr ShExpand f codes n = Ok (lshift_fmt ShExpand f codes n, w) /\
+    w_codes w = map (fun c => c * 2^n) codes /\ w_ovf w = false /\ w_unf w = false /\ nf (lshift_fmt ShExpand f codes n) = nf f.
+Proof. exact lshift_expand_arr_exact. Qed.
+Print Assumptions C14_lshift_expand_arrays.
+Theorem C14_lshift_expand_arrays_word_least : forall f codes n, 0 <= n -> 1 <= nw f -> Forall (in_range f) codes -> Exists (fun c => c <> 0) codes ->
+  let f' := lshift_fmt ShExpand f codes n in
+  nw f <= nw f' /\ (nw f < nw f' -> exists c, In c codes /\ ~ in_range {| sg := sg f; nw := nw f' - 1; nf := nf f |} (c * 2^n)).
+Proof. exact lshift_expand_arr_word_least. Qed.
+Print Assumptions C14_lshift_expand_arrays_word_least.
+Example C14_arrays_example :
+  exists w, fxp_lshift_arr ShExpand {| sg := true; nw := 4; nf := 1 |} [3; -8; 0] 70 = Ok ({| sg := true; nw := 74; nf := 1 |}, w) /\
+    w_codes w = [3 * 2^70; -8 * 2^70; 0].
+Proof. eexists. split; vm_compute; reflexivity. Qed.
 
 (* x >> n in expand mode equals x / 2^n exactly (arrays of any length): the stored codes times
    2^(n-e) are the old codes and the fraction grew by e, so no bit is lost; min_pow2's loop is
